@@ -83,6 +83,27 @@ theorem cycleTake_one {β : Type} (l : List β) : cycleTake l 1 l.length = l.dro
 
 theorem line2_new_tie (a b : ℝ × ℝ) : Gen.line2_new a b = ⟨a.1, a.2, b.1, b.2⟩ := rfl
 
+/-- a loop whose body always succeeds with `acc ++ [f x]` -/
+theorem foldlM_push' {β γ : Type} (step : List γ → β → Except Unit (List γ)) (f : β → γ)
+    (hstep : ∀ acc x, step acc x = Except.ok (acc ++ [f x])) (l : List β) (init : List γ) :
+    List.foldlM step init l = Except.ok (init ++ l.map f) := by
+  have : step = fun acc x => Except.ok (acc ++ [f x]) := by funext acc x; exact hstep acc x
+  rw [this]; exact foldlM_push f l init
+
+/-- the model's outline segment `index` for radii `(r1, r2)` -/
+noncomputable def radialItem (dtheta : ℝ) (x : Nat × (ℝ × ℝ)) : Line2 ℝ :=
+  let angle := ((x.1 : Nat) : ℝ) * dtheta
+  ⟨x.2.1 * sin angle, x.2.1 * cos angle, x.2.2 * sin (angle + dtheta), x.2.2 * cos (angle + dtheta)⟩
+
+/-- the body of the `for` loop of `from_radial` pushes the model's segment and never fails -/
+theorem from_radial_loop_tie (dtheta : ℝ) (items : List (Line2 ℝ)) (x : Nat × (ℝ × ℝ)) :
+    Gen.line_from_radial_loop1 dtheta items x = Except.ok (items ++ [radialItem dtheta x]) := by
+  obtain ⟨i, r1, r2⟩ := x
+  unfold Gen.line_from_radial_loop1 radialItem Gen.line2_new
+  simp only [Except.ok.injEq, List.append_cancel_left_eq, List.cons.injEq, and_true, Line2.mk.injEq]
+  repeat' constructor
+  all_goals tie_close
+
 /-- `LineShape::from_radial`: too few points is the error, otherwise the model's closed outline -/
 theorem from_radial_tie (points : List ℝ) :
     Gen.line_from_radial points
@@ -94,14 +115,7 @@ theorem from_radial_tie (points : List ℝ) :
   · simp [h]
   · simp only [h, if_false, ↓reduceIte]
     rw [cycleTake_one]
-    rw [foldlM_push (fun x : Nat × (ℝ × ℝ) =>
-      Gen.line2_new
-        (x.2.1 * sin (((x.1 : Nat) : ℝ) * (((2 : Nat) : ℝ) * Transc.pi / ((points.length : Nat) : ℝ))),
-          x.2.1 * cos (((x.1 : Nat) : ℝ) * (((2 : Nat) : ℝ) * Transc.pi / ((points.length : Nat) : ℝ))))
-        (x.2.2 * sin (((x.1 : Nat) : ℝ) * (((2 : Nat) : ℝ) * Transc.pi / ((points.length : Nat) : ℝ))
-            + ((2 : Nat) : ℝ) * Transc.pi / ((points.length : Nat) : ℝ)),
-          x.2.2 * cos (((x.1 : Nat) : ℝ) * (((2 : Nat) : ℝ) * Transc.pi / ((points.length : Nat) : ℝ))
-            + ((2 : Nat) : ℝ) * Transc.pi / ((points.length : Nat) : ℝ))))]
+    rw [foldlM_push' _ _ (from_radial_loop_tie _)]
     simp only [List.nil_append, List.map_map]
     rfl
 
